@@ -2,7 +2,7 @@
 Lifts of the tier-K checks of the regenerated GF(256) tables and generator literals (Finite/Tables)
 to per-index statements.
 -/
-import FastQr.Finite.Tables
+import FastQr.Finite.TablesGf
 import FastQr.Proofs.Lift
 
 namespace FastQr.Proofs.GfTables
